@@ -14,5 +14,7 @@ INVARIANT Inv_Svcs
 INVARIANT Inv_Deps
 INVARIANT Inv_Unrelated
 INVARIANT Inv_Internal
+INVARIANT Inv_InternalStillWorks
+INVARIANT Inv_Behave
 INVARIANT Inv_Files
 INVARIANT Inv_Off
